@@ -187,7 +187,8 @@ def classify (line : Bytes) : Option Reply :=
   | _ =>
     let tag := line.takeWhile (· != 32)
     let r := (line.dropWhile (· != 32)).drop 1
-    if tag.isEmpty || !tag.all isAtomChar then none
+    -- the tag is an echo of what the client sent: any octets but SP and controls
+    if tag.isEmpty || !tag.all (fun c => c > 32 && c != 127) then none
     else if startsWith [79, 75, 32] r then some (.tagged tag .ok)
     else if startsWith [78, 79, 32] r then some (.tagged tag .no)
     else if startsWith [66, 65, 68, 32] r then some (.tagged tag .bad)
